@@ -2,8 +2,10 @@ package main
 
 import (
 	"fmt"
+	"os"
 	"path/filepath"
 	"sort"
+	"strings"
 )
 
 func debugDump(what, repo string) int {
@@ -11,6 +13,14 @@ func debugDump(what, repo string) int {
 	if err != nil {
 		fmt.Println(err)
 		return 1
+	}
+	if strings.HasPrefix(what, "ssa:") {
+		for _, f := range p.Funcs {
+			if fname(f) == strings.TrimPrefix(what, "ssa:") {
+				f.WriteTo(os.Stdout)
+			}
+		}
+		return 0
 	}
 	switch what {
 	case "funcs":
